@@ -15,7 +15,7 @@ import os
 from concurrent.futures import ThreadPoolExecutor
 
 from .common import *
-from .histlib import HistGen, run_scripts
+from .histlib import HistGen, run_scripts, rejoin_history
 from .treelib import *
 
 
@@ -105,8 +105,13 @@ def main(run, args):
             g.ops.append({"op": "group_info", "who": w, "id": gid, "ext_commit": False, "tree_ext": False})
             g.ops.append({"op": "obs_join", "who": f"S{r}", "gi": gid, "tree": gid + ".tree"})
         scripts.append(g.script())
+    # directed: re-join by an external commit that removes the own leaf while an earlier leaf is blank
+    for i in range(6 if quick else 40):
+        g, _ = rejoin_history(rng, i, f"c08-rejoin-{i}")
+        scripts.append(g.script())
     recs = run_scripts(scripts, timeout=2400)
     failing = []
+    ext_seen = 0
     tree_cases, hash_cases, cache_cases = [], {}, []
     shapes = {"interior_blank": 0, "unmerged": 0, "parents": 0, "commits": 0, "max_leaves": 0}
     for sc, rs in zip(scripts, recs):
@@ -115,6 +120,10 @@ def main(run, args):
             failing.append({"what": "operation failed in a valid history" + (" (exported tree rejected by an outside validator)" if bad[0].get("op") == "obs_join" else ""),
                             "script": sc["name"], "record": bad[0], "ops": sc["ops"][max(0, bad[0].get("i", 0) - 4):bad[0].get("i", 0) + 1]})
             continue
+        xbad, xn = ext_commit_placements(sc, rs)
+        ext_seen += xn
+        for x in xbad:
+            failing.append(dict(x, script=sc["name"]))
         for c in commits_of(sc, rs):
             info = c["info"]
             cidx = info["committer"]
@@ -222,7 +231,8 @@ def main(run, args):
             broken.append(("generator", "every sampled hash cache was empty"))
         run.cov["parent_hash_chains_verified_in_coq"] = len(psel)
     run.obligation("correspondence: model trees = exported trees; recomputed tree hashes = context tree hashes", not mism and not failing and coq_cases > 0)
-    if shapes["interior_blank"] < 3 or shapes["unmerged"] < 3:
+    shapes["external_commits_placed"] = ext_seen
+    if shapes["interior_blank"] < 3 or shapes["unmerged"] < 3 or ext_seen < 3:
         broken.append(("generator", f"degenerate tree shapes: {shapes}"))
     run.cov.update({
         "evaluations": len(tree_cases) + len(hash_cases),
